@@ -29,6 +29,11 @@ def instances(cfg):
     return lvl('o', cfg['outer']), (lvl('s', cfg['sub']) if cfg.get('sub') is not None else None), lvl('r', cfg['route'])
 
 
+def mid_instances(cfg):
+    # an application level between the outermost and the innermost one (three nested applications)
+    return [{'name': ('sh:%s' % t) if shared_name(cfg, t) else 'm%d:%s' % (i, t), 'type': t} for i, t in enumerate(cfg.get('mid') or [])]
+
+
 def shared_name(cfg, t):
     spec = cfg['types'][t]
     return bool(spec.get('shared')) or spec.get('hooks') == 'static'
@@ -94,6 +99,8 @@ def merged_order(cfg):
     m = route
     if sub is not None:
         m = merge(cfg, m, sub)
+        if cfg.get('mid') is not None:
+            m = merge(cfg, m, mid_instances(cfg))
     return merge(cfg, m, outer)
 
 
@@ -110,7 +117,7 @@ def chain_functions(cfg, target='x'):
 def model_run(cfg, faults, target='x'):
     trace, final = OnionModel(chain_functions(cfg, target), faults, cfg['ep_returns'], cfg['has_render']).run()
     if final[0] == 'value' and final[1][0] == 'resp':
-        return trace, (200, final[1][2])
+        return trace, (final[1][3], final[1][2])
     return trace, (500, None)
 
 
@@ -144,6 +151,9 @@ def build_app(cfg):
     rt2 = Route('/y', ep, rn)        # bound after /x, no middlewares of its own
     if sub is not None:
         inner = Application([rt, rt2], middlewares=objs(sub))
+        if cfg.get('mid') is not None:
+            middle = Application([('/sub', inner)], middlewares=objs(mid_instances(cfg)))
+            return Application([('/mid', middle)], middlewares=objs(outer)), '/mid/sub/'
         return Application([('/sub', inner)], middlewares=objs(outer)), '/sub/'
     return Application([rt, rt2], middlewares=objs(outer)), '/'
 
@@ -154,7 +164,7 @@ class C03(Check):
     level = 'fault_enumeration'
     design_ref = 'DESIGN.md 3.2'
     runs = {'quick': 3000, 'thorough': 40000}
-    shrink_lists = (('ops',), ('config', 'outer'), ('config', 'sub'), ('config', 'route'))
+    shrink_lists = (('ops',), ('config', 'outer'), ('config', 'sub'), ('config', 'mid'), ('config', 'route'))
     rule = ('generated middleware stacks at application / embedded-application / route level (unique, non-unique, '
             'non-reorderable types; any subset of request/endpoint/render functions; endpoint returning context or '
             'Response; with/without render). Per stack: the fault-free request plus EVERY single-layer fault placement '
@@ -170,7 +180,7 @@ class C03(Check):
     level_text = ('For each generated stack the single-fault space (<= 17 layers x 4 behaviours) is enumerated '
                   'completely and compared, event by event, with a reference interpreter; stacks are sampled by seed.')
     level_note = 'Trusted: the reference onion interpreter (written from the property text, ~90 lines).'
-    required_probes = ('non-unique-non-reorderable-type-twice', 'two-unique-types-with-one-class-name', 'chain-consumes-every-injectable', 'same-hook-at-two-positions:static', 'same-hook-at-two-positions:one-instance', 'declared-name-provided-further-in', 'declared-name-offered',
+    required_probes = ('three-nested-applications-with-middlewares', 'non-unique-non-reorderable-type-twice', 'two-unique-types-with-one-class-name', 'chain-consumes-every-injectable', 'same-hook-at-two-positions:static', 'same-hook-at-two-positions:one-instance', 'declared-name-provided-further-in', 'declared-name-offered',
                        'non-response-value-through-layers', 'unique-type-twice-in-route-list', 'subclass-and-base-in-one-stack', 'closure-hooks', 'second-route-without-own-middlewares', 'render-skipped-for-response', 'no-render-layers-ran', 'unique-deduped', 'three-levels',
                        'swallow-fired', 'double-fault')
 
@@ -214,7 +224,8 @@ class C03(Check):
         outer = pick(3)
         has_sub = rng.random() < 0.5
         sub = pick(2, banned=nonreo & set(outer)) if has_sub else None
-        route = pick(3, banned=nonreo & (set(outer) | set(sub or [])))
+        mid = pick(2, banned=nonreo & (set(outer) | set(sub or []))) if (has_sub and rng.random() < 0.4) else None
+        route = pick(3, banned=nonreo & (set(outer) | set(sub or []) | set(mid or [])))
         dup_ok = [t for t in route if types[t]['unique'] and types[t]['reorderable']]
         if dup_ok and rng.random() < 0.3:
             # the route lists a unique type twice: it still appears once in the chain
@@ -230,10 +241,10 @@ class C03(Check):
                 if t != pt and rng.random() < 0.6:
                     cons[t] = [ph for ph in types[t]['phases'] if rng.random() < 0.7]
             wiring = {'name': 'u1', 'provider': pt, 'consumers': cons, 'ep': rng.random() < 0.5}
-        return {'types': types, 'outer': outer, 'sub': sub, 'route': route, 'wiring': wiring,
+        return {'types': types, 'outer': outer, 'sub': sub, 'mid': mid, 'route': route, 'wiring': wiring,
                 # what the endpoint declares: with all four, the chain consumes EVERYTHING the framework has on offer for this route
                 'ep_consumes': rng.choice([[], [], ['request'], ['request', '_route', '_application', '_dispatch_state']]),
-                'ep_returns': rng.choice(['dict', 'dict', 'resp', 'baseresp']), 'has_render': rng.random() < 0.8}
+                'ep_returns': rng.choice(['dict', 'dict', 'resp', 'baseresp', 'falsyresp']), 'has_render': rng.random() < 0.8}
 
     def generate(self, seed, tier):
         S = Streams(seed)
@@ -245,7 +256,7 @@ class C03(Check):
         excs = sorted(EXC_TYPES)
         for name in layers:
             for beh in LAYER_BEHS:
-                ops.append({'faults': {name: {'beh': beh, 'exc': frng.choice(excs), 'value': frng.choice(['resp', 'resp', 'baseresp'])}}})
+                ops.append({'faults': {name: {'beh': beh, 'exc': frng.choice(excs), 'value': frng.choice(['resp', 'resp', 'baseresp', 'falsyresp'])}}})
         ops.append({'faults': {'EP': {'beh': 'raise', 'exc': frng.choice(excs)}}})
         if cfg['has_render']:
             ops.append({'faults': {'RN': {'beh': 'raise', 'exc': frng.choice(excs)}}})
@@ -285,12 +296,14 @@ class C03(Check):
             return res
         if len(set(cfg['route'])) < len(cfg['route']):
             res.probe('unique-type-twice-in-route-list')
-        n_inst = len(cfg['outer']) + len(cfg.get('sub') or []) + len(cfg['route'])
+        n_inst = len(cfg['outer']) + len(cfg.get('sub') or []) + len(cfg.get('mid') or []) + len(cfg['route'])
         if len(order) < n_inst:
             res.probe('unique-deduped')
         if cfg.get('sub') is not None:
             res.probe('three-levels')
-        used = set(cfg['outer']) | set(cfg.get('sub') or []) | set(cfg['route'])
+        if cfg.get('mid') and cfg.get('sub'):
+            res.probe('three-nested-applications-with-middlewares')
+        used = set(cfg['outer']) | set(cfg.get('sub') or []) | set(cfg.get('mid') or []) | set(cfg['route'])
         if any(cfg['types'][t].get('base') in used for t in used):
             res.probe('subclass-and-base-in-one-stack')
         if any(cfg['types'][t].get('hooks') == 'closure' for t in used):
@@ -298,7 +311,7 @@ class C03(Check):
         if any(cfg['types'][t].get('named_like') in used and cfg['types'][t]['unique'] for t in used):
             res.probe('two-unique-types-with-one-class-name')
         if any(not cfg['types'][t]['unique'] and not cfg['types'][t]['reorderable'] and
-               (cfg['outer'] + (cfg.get('sub') or []) + cfg['route']).count(t) > 1 for t in used):
+               (cfg['outer'] + (cfg.get('sub') or []) + (cfg.get('mid') or []) + cfg['route']).count(t) > 1 for t in used):
             res.probe('non-unique-non-reorderable-type-twice')
         if len(cfg.get('ep_consumes', [])) == 4:
             res.probe('chain-consumes-every-injectable')
@@ -318,7 +331,7 @@ class C03(Check):
             if target == 'y':
                 res.probe('second-route-without-own-middlewares')
             got_trace = RT.trace.get(step, [])
-            got_out = (ex.code, ex.header('X-Sim-From') if ex.code == 200 else None)
+            got_out = (ex.code, ex.header('X-Sim-From') if ex.code in (200, 202) else None)
             fired = [f for f in faults if any(t.startswith(('!' + f + ' ', '<' + f + ' ')) for t in got_trace)
                      and faults[f]['beh'] != 'pass']
             if any(faults[f].get('value') in ('none', 'str', 'number', 'list') for f in fired):
